@@ -13,6 +13,7 @@
 (* position only if CommonMark gives it no meaning there whatever the      *)
 (* other lexemes are.  The guards:                                         *)
 (*   StartBad   may not begin a line (block starts: list markers, ATX,     *)
+(*              [ordered markers other than 1 only on the first line]      *)
 (*              quote, setext underline / thematic break characters, HTML  *)
 (*              block openers, table delimiter cells)                      *)
 (*   EndBad     may not end a line (backslash: hard break)                 *)
@@ -29,13 +30,15 @@
 (***************************************************************************)
 EXTENDS Naturals, Sequences, FiniteSets, TLC, Json
 
-CONSTANTS MaxLines, MaxPerLine, MaxLexemes
+CONSTANTS MaxLines, MaxPerLine, MaxLexemes, Pool
 
 (* text, StartBad, EndBad, Tick, Star, Pipe, Word *)
-L(t, sb, eb, tk, st, pp, wd) == [t |-> t, sb |-> sb, eb |-> eb, tk |-> tk, st |-> st, pp |-> pp, wd |-> wd]
+L(t, sb, eb, tk, st, pp, wd) == [t |-> t, sb |-> sb, eb |-> eb, tk |-> tk, st |-> st, pp |-> pp, wd |-> wd, fl |-> FALSE]
 Wd(t)  == L(t, FALSE, FALSE, FALSE, FALSE, FALSE, TRUE)      \* a plain word
 In(t)  == L(t, FALSE, FALSE, FALSE, FALSE, FALSE, FALSE)     \* inert anywhere
 Sb(t)  == L(t, TRUE, FALSE, FALSE, FALSE, FALSE, FALSE)      \* inert except at the start of a line
+Sf(t)  == [Sb(t) EXCEPT !.fl = TRUE]                          \* inert except at the start of the FIRST line: an ordered list marker whose
+                                                              \* number is not 1 cannot interrupt a paragraph (CommonMark 5.2)
 
 Vocab == <<
     Wd("word"), Wd("Hello"), Wd("x"), Wd("naive"), Wd("42"), Wd("3.14"), Wd("e.g."), Wd("etc."), Wd("a.b"), Wd("www.example.com"),
@@ -43,12 +46,12 @@ Vocab == <<
     Wd("comma,"), Wd("what?"), Wd("wow!"), Wd("(paren)"), Wd("1.5"), Wd("v2.0.1"), Wd("100%"), Wd("user@example.com"), Wd("a/b"),
     Wd("C:\\dir"), Wd("x=y"), Wd("a+b"), Wd("key=value"), Wd("AT&T"), Wd("R&D"), Wd("&copy"), Wd("a&b"), Wd("&ampere;"), Wd("&notit;"), Wd("&xyz;"), Wd("x&y;z"), Wd("x^2"), Wd("$5"), Wd("$x$"),
     Wd("#hashtag"), Wd("C#"), Wd("a#b"), Wd("it's"), Wd("{braces}"), Wd("semi-colon"), Wd("well-known"), Wd("a--b"), Wd("x>y"), Wd("->"),
-    Sb("-"), Sb("+"), Sb("#"), Sb("##"), Sb(">"), Sb(">>"), In("="), In("=="), Sb("--"), Sb("1."), Sb("2."), Sb("1)"), Sb("10."), Sb("007."),
+    Sb("-"), Sb("+"), Sb("#"), Sb("##"), Sb(">"), Sb(">>"), In("="), In("=="), Sb("--"), Sb("1."), Sf("2."), Sb("1)"), Sf("10."), Sf("007."), Sf("100)"), Sf("12."),
     Sb("<"), Sb("<3"), Sb("<="), Sb("<-"), Sb("<>"), Sb("(1)"), Sb("(a)"),
     In("."), In(")"),
     In("~"), In("^"), In("$"), In("%"), In("@"), In("&"), In("&&"), In(":"), In(";"), In("!"), In("?"), In(","), In("("), In("/"),
     In("["), In("]"), In("[x"), In("x]"), In("[1]"), In("a[1]"), In("]["), In("(x"), In("x)"), In("!["), In("!x"), In("[]"), In("()"),
-    In("=>"), Sb(">="), In("=)"), In(":)"), Sb("3)"), In("2.5)"),
+    In("=>"), Sb(">="), In("=)"), In(":)"), Sf("3)"), In("2.5)"),
     L("|", TRUE, FALSE, FALSE, FALSE, TRUE, FALSE), L("a|b", FALSE, FALSE, FALSE, FALSE, TRUE, FALSE), L("||", TRUE, FALSE, FALSE, FALSE, TRUE, FALSE),
     L("`", FALSE, FALSE, TRUE, FALSE, FALSE, FALSE), L("``", FALSE, FALSE, TRUE, FALSE, FALSE, FALSE), L("a`b", FALSE, FALSE, TRUE, FALSE, FALSE, FALSE),
     L("*", TRUE, FALSE, FALSE, FALSE, FALSE, FALSE), L("2*3", FALSE, FALSE, FALSE, TRUE, FALSE, FALSE), L("a*b", FALSE, FALSE, FALSE, TRUE, FALSE, FALSE),
@@ -57,7 +60,8 @@ Vocab == <<
 >>
 
 N == IF MaxLexemes = 0 THEN Len(Vocab) ELSE MaxLexemes
-Lex == 1..N
+(* Pool = "markers": three words and every lexeme that is guarded at a line start (deeper bounds on the block-start guards) *)
+Lex == IF Pool = "markers" THEN {i \in 1..Len(Vocab) : i <= 3 \/ Vocab[i].sb} ELSE 1..N
 
 VARIABLES lines, cur, ticks, stars, phase
 vars == <<lines, cur, ticks, stars, phase>>
@@ -73,7 +77,7 @@ Init == lines = << >> /\ cur = << >> /\ ticks = 0 /\ stars = 0 /\ phase = "typin
 
 Add(l) ==
     /\ phase = "typing" /\ Len(cur) < MaxPerLine
-    /\ (cur = << >> => ~Vocab[l].sb)
+    /\ (cur = << >> => (~Vocab[l].sb \/ (Vocab[l].fl /\ lines # << >>)))
     /\ (Vocab[l].tk => ticks = 0)
     /\ (Vocab[l].st => stars = 0)
     /\ cur' = Append(cur, l)
